@@ -52,6 +52,7 @@ type e2eRule struct {
 type e2eCase struct {
 	App     int         `json:"app"` // 0: no trusted proxies, 1: trusted_proxies [127.0.0.2, 127.0.1.0/24]; tracing is enabled in both
 	Corr    string      `json:"corr"`
+	Follows bool        `json:"follows,omitempty"` // sent right after the previous case, same rule, its path in another spelling
 	Peer    string      `json:"peer"`
 	Trusted bool        `json:"trusted"`
 	Method  string      `json:"method"`
@@ -402,6 +403,31 @@ func e2eGenSeg(r *vf.Rand) string {
 	return sb.String()
 }
 
+// e2eVariant spells a decoded path differently (any byte literally or escaped, either hex case).
+func e2eVariant(r *vf.Rand, dec string) string {
+	p := vf.Pick(r, []int{10, 30, 60})
+
+	var sb strings.Builder
+
+	for i := 0; i < len(dec); i++ {
+		b := dec[i]
+		if b == '%' || b == '?' || b == '#' || b <= 0x20 || b >= 0x7f || r.Chance(p) {
+			hex := "0123456789ABCDEF"
+			if r.Bool() {
+				hex = "0123456789abcdef"
+			}
+
+			sb.WriteByte('%')
+			sb.WriteByte(hex[b>>4])
+			sb.WriteByte(hex[b&15])
+		} else {
+			sb.WriteByte(b)
+		}
+	}
+
+	return sb.String()
+}
+
 func e2eRandCase(r *vf.Rand, name string) string {
 	b := []byte(name)
 	for i := range b {
@@ -736,32 +762,75 @@ func TestVerifC15E2E(t *testing.T) {
 	outs := make([]e2eOut, n)
 
 	for i := range cases {
-		cases[i] = e2eGen(root.Fork(uint64(i)), rules, upHost)
+		ri := root.Fork(uint64(i))
+		cases[i] = e2eGen(ri, rules, upHost)
+
+		if i > 0 && ri.Chance(40) {
+			// a follower: the same rule (the rule instances live as long as the application), the previous
+			// request's path spelled differently after the rule's prefix
+			prev := cases[i-1]
+			prefix := "/" + prev.Rule.ID + "/"
+
+			if dec, err := url.PathUnescape(strings.TrimPrefix(prev.Raw, prefix)); err == nil && dec != "" {
+				c := &cases[i]
+				c.Rule, c.App, c.Peer, c.Trusted = prev.Rule, prev.App, prev.Peer, prev.Trusted
+				c.Raw = prefix + e2eVariant(ri, dec)
+				c.Follows = true
+				c.Xfu = nil
+
+				kept := c.Headers[:0]
+
+				for _, h := range c.Headers {
+					if k := http.CanonicalHeaderKey(h[0]); k != "X-Forwarded-Uri" && k != "X-Forwarded-Proto" {
+						kept = append(kept, h)
+					}
+				}
+
+				c.Headers = kept
+			}
+		}
+
 		cases[i].Corr = fmt.Sprintf("c%d", i)
 		cases[i].Headers = append(cases[i].Headers, [2]string{"X-Corr", cases[i].Corr})
 	}
 
-	for lo := 0; lo < n; lo += batch {
+	// sessions: a case and its followers are sent one after the other; 8 sessions at a time
+	var sessions [][]int
+
+	for i := range cases {
+		if cases[i].Follows && len(sessions) > 0 {
+			sessions[len(sessions)-1] = append(sessions[len(sessions)-1], i)
+		} else {
+			sessions = append(sessions, []int{i})
+		}
+	}
+
+	only := vf.Only()
+
+	for lo := 0; lo < len(sessions); lo += batch {
 		var wg sync.WaitGroup
 
-		for i := lo; i < min(lo+batch, n); i++ {
-			if !vf.Want(i) {
-				continue
-			}
-
+		for _, sess := range sessions[lo:min(lo+batch, len(sessions))] {
 			wg.Add(1)
 
-			go func(i int) {
+			go func(sess []int) {
 				defer wg.Done()
 
-				o := e2eSend(addrs[cases[i].App], &cases[i], up)
-				for try := 0; o.Kind == "error" && try < 3; try++ {
-					time.Sleep(200 * time.Millisecond)
-					o = e2eSend(addrs[cases[i].App], &cases[i], up)
-				}
+				for _, i := range sess {
+					// to replay one case its predecessors in the session are sent, too
+					if only >= 0 && (only < sess[0] || only > sess[len(sess)-1] || i > only) {
+						continue
+					}
 
-				outs[i] = o
-			}(i)
+					o := e2eSend(addrs[cases[i].App], &cases[i], up)
+					for try := 0; o.Kind == "error" && try < 3; try++ {
+						time.Sleep(200 * time.Millisecond)
+						o = e2eSend(addrs[cases[i].App], &cases[i], up)
+					}
+
+					outs[i] = o
+				}
+			}(sess)
 		}
 
 		wg.Wait()
@@ -784,6 +853,10 @@ func TestVerifC15E2E(t *testing.T) {
 			tags := []string{"e2e:" + o.Kind, "e2e:setting:" + c.Rule.Setting}
 			if c.Trusted {
 				tags = append(tags, "e2e:trusted")
+			}
+
+			if c.Follows {
+				tags = append(tags, "e2e:other-spelling-of-previous-path")
 			}
 
 			for _, h := range c.Rule.PHdrs {
